@@ -494,11 +494,22 @@ func (c *Conn) doHandshake() error {
 			c.maxStreams = c.serverS.MaxConcurrentStreams()
 			c.maxFrameSize = c.serverS.MaxFrameSize()
 
-			if st.HeaderTableSize() <= defaultHeaderTableSize {
-				c.enc.SetMaxTableSize(st.HeaderTableSize())
-				c.encTableSize = st.HeaderTableSize()
-				c.encTableSizeSeen = st.HeaderTableSize()
+			// Offered more than it starts with, the encoder stays where it is.
+			size := st.HeaderTableSize()
+			if size > defaultHeaderTableSize {
+				size = defaultHeaderTableSize
 			}
+
+			// The lowest size the frame went through comes first, as for any
+			// later SETTINGS frame (RFC 7541 4.2): [0, 4096] means the table
+			// was emptied on the way, and the first block has to say so.
+			if st.has(HeaderTableSize) && st.tableSizeLow < size {
+				c.enc.SetMaxTableSize(st.tableSizeLow)
+			}
+
+			c.enc.SetMaxTableSize(size)
+			c.encTableSize = size
+			c.encTableSizeSeen = size
 
 			// reply back
 			fr := AcquireFrameHeader()
